@@ -22,7 +22,7 @@ def run(tier):
     deep = [p for p in deep if p["d"] >= 2]
     gj = rel.gen("GenJoin", {"What": '"queries"', "MaxRows": 2, "MaxVal": 1}, "C02-genj")
     rep.add_tlc(gj, "GEN GenJoin queries")
-    joins = [{"q": p["q"]} for p in gj.printed if "q" in p]
+    joins = [{"q": p["q"], "tag": "/".join(p["tag"])} for p in gj.printed if "q" in p]
     ndb = 3 if tier == "quick" else 12
     dbs = rel.pick_dbs(tables, rng, max(ndb, 5))
     run_ = rel.RelRun(rep, "optimizer")
@@ -30,8 +30,9 @@ def run(tier):
         for db in ([dbs[qi % 5]] + rng.sample(dbs, ndb - 1)):
             if "S" not in db:
                 continue
-            a = run_.add(rel.shape(p["q"]), p["q"], db, {"partitions": 2, "optimizer": True})
-            b = run_.add(rel.shape(p["q"]), p["q"], db, {"partitions": 2, "optimizer": False})
+            tag = p.get("tag") or rel.shape(p["q"])
+            a = run_.add(tag, p["q"], db, {"partitions": 2, "optimizer": True})
+            b = run_.add(tag, p["q"], db, {"partitions": 2, "optimizer": False})
             if a and b:
                 run_.pairs.append((a["id"], b["id"]))
     run_.execute()
